@@ -428,6 +428,7 @@ def body (cfg : Cfg) (st : St) (pfx : Str) : Cmd → St × Bool
     if newname.isEmpty then (st, false) else
     withOther cfg st name fun id u =>
       if st.nameTaken cfg newname then (st, false)
+      else if C03.isUserHostmask newname then (st, false)
       else if C16.hasLineBreak newname then (st, false)
       else if st.checkHostmask id u pfx true || checkPassword cfg u (optPw pw) then
         finishSet cfg st id { u with name := newname }
